@@ -145,8 +145,10 @@ func genC01(seed uint64, run int, tier string) Scenario {
 			maxCmd = len(cmd)
 		}
 	}
-	// search depth: larger than the prompt plus the longest line (output line or echoed command)
-	if maxCmd > longest {
+	// search depth: larger than the prompt plus the longest output line; in two runs of three also
+	// larger than the longest echoed command (the statement's bound speaks of output lines only:
+	// the search window is at least twice the input's length whatever the depth)
+	if maxCmd > longest && r.IntN(3) != 0 {
 		longest = maxCmd
 	}
 	min := longest + len(sc.Prompt) + len(sc.NL) + 2
